@@ -524,6 +524,7 @@ func init() {
 			"Not decided: the assembly divmod, numerical equality of results across engines, the cycle-following arithmetic of the in-place transpose. Round 7: (L0) the float engines' own tensor-scalar preparation decides like the default one (finding 81); (L2) their flat kernels do not run once the shared iterator decision was positive (finding 80); (L1) their Inner refuses views with gaps (finding 79). Round 11: (O8, CF) the saved axes, which only the in-place build reads, are never shared between a tensor and its clone.",
 		Quick: []string{"default", "inplacetranspose", "noasm"},
 		Run: func(rc *rules.RC) {
+			rules.RA(rc)
 			rules.O8(rc)
 			rules.CF(rc)
 			rules.T7(rc)
@@ -615,6 +616,7 @@ func init() {
 			"Not decided: that the kernels compute Op (rules K1/K2 of C06/C11/C12 do), that iterators deliver matching coordinates (C05), the hand-written operations' value semantics. Round 11: (RS) raw reshape typestate; (LP) a product's destination comes from handleReuse or is created by the method; (HS) only comparisons and prepReduce waive the destination's element type check; (AD). Round 17: (SP) handleFuncOptsF32 and handleFuncOptsF64 are mirror images (the incr guard of the destination's relabelling).",
 		Assume: []string{"the summaries of E-level dispatch (destination = first non-scalar operand; Incr adds; Recv stores) and of storage.Copy/CopyIter/Fill, which rules K1arms/K2 check against the kernels", "sparse operands (swap) are outside the dense properties"},
 		Run: func(rc *rules.RC) {
+			rules.RA(rc)
 			rules.SP(rc, "C07", 1)
 			rules.HS(rc)
 			rules.RS(rc)
